@@ -131,16 +131,26 @@ def r145(repo, ctx):
     # bulk / dislocation branch of nucleationBarrier: Rcrit = 2 f gamma / dG, Gcrit = 4 pi/3 gamma Rcrit^2
     f = repo.func(NR, 'nucleationBarrier')
     src_ = U.src(f)
+    # the statements executed when the site is not a grain-boundary type (path through the isGrainBoundaryNucleation tests)
+    def bulk_path(stmts):
+        out = []
+        for st in stmts:
+            if isinstance(st, ast.If) and 'isGrainBoundaryNucleation' in U.src(st.test):
+                t = st.test
+                neg = isinstance(t, ast.UnaryOp) and isinstance(t.op, ast.Not)
+                out += bulk_path(st.body if neg else st.orelse)
+            else:
+                out.append(st)
+        return out
     stores = {}
-    for s in ast.walk(f):
-        if isinstance(s, ast.If) and 'isGrainBoundaryNucleation' in U.src(s.test):
-            branch = s.body if isinstance(s.test, ast.UnaryOp) else s.orelse
-            defs = {}
-            for st in branch:
-                if isinstance(st, ast.Assign) and isinstance(st.targets[0], ast.Name):
-                    defs[st.targets[0].id] = st.value
-                if isinstance(st, ast.Assign) and isinstance(st.targets[0], ast.Subscript) and isinstance(st.targets[0].value, ast.Name):
-                    stores[st.targets[0].value.id] = (st, defs.copy())
+    defs = {}
+    for st in bulk_path(f.body):
+        if isinstance(st, ast.Assign) and isinstance(st.targets[0], ast.Name):
+            nm = st.targets[0].id
+            if nm not in U.names_in(st.value) and nm not in ('volumeDrivingForce', 'indices', 'Rcrit', 'Gcrit', 'Rmin'):
+                defs[nm] = st.value
+        if isinstance(st, ast.Assign) and isinstance(st.targets[0], ast.Subscript) and isinstance(st.targets[0].value, ast.Name):
+            stores[st.targets[0].value.id] = (st, defs.copy())
     fsym, g2 = sp.symbols('f gamma', positive=True)
 
     def atoms2(e):
